@@ -45,10 +45,17 @@ PAGE = 4096
 # ------------------------------------------------------------------------------------------------
 
 class Prog:
-    def __init__(self, plan, heap, workers, tag):
+    def __init__(self, plan, heap, workers, tag, events=False):
         self.plan, self.heap, self.workers, self.tag = plan, heap, workers, tag
         self.lines = [f"cfg plan {plan}", f"cfg heap {heap}", f"cfg workers {workers}", "cfg watchdog 20",
                       "init", "bind 0"]
+        # events=True: the hook event log is on and every request is followed by `events`; the number of
+        # PrGetNewPagesFail events (src/policy/space.rs, get_new_pages_and_initialize: the page resource itself
+        # failed) is part of the observation (`prfail`)
+        self.events = events
+        if events:
+            self.lines[4:4] = ["cfg events 1"]
+            self.lines.append("kinds")
         self.meta = {}          # line index -> dict(opts, cls, size, obvious, phase)
         self.next_id = 1
         # half of the nominal room: the space also fragments (a new chunk is taken when no run is long enough)
@@ -58,17 +65,22 @@ class Prog:
         self.lines.append(line)
         return len(self.lines) - 1
 
-    def alloco(self, payload, sem, slot, opts, cls, phase):
-        """stats / alloco / stats; the observation is attached to the alloco line."""
-        if opts[0] == 1 and sem == "Los" and (payload + 40) // PAGE + 1 <= self.heap // PAGE:
+    def alloco(self, payload, sem, slot, opts, cls, phase, exhaust=False):
+        """stats / alloco / stats; the observation is attached to the alloco line.
+        exhaust=True: the request is MEANT to push the space towards / beyond its address range (no budget)."""
+        if not exhaust and opts[0] == 1 and sem == "Los" and (payload + 40) // PAGE + 1 <= self.heap // PAGE:
             need = (payload + 40) // PAGE + 2
             if need > self.oc_budget or need > 400:
                 payload, sem, cls = 2000, "Default", "small"   # keep clear of the free-list capacity defect
             else:
                 self.oc_budget -= need
+        if self.events:
+            self.add("events")          # drain: what the collector logged between two requests is not this request's
         self.add("stats")
         i = self.add(f"alloco 0 {self.next_id} 0 {payload} 8 0 {sem} {slot} {opts[0]} {opts[1]} {opts[2]}")
         self.add("stats")
+        if self.events:
+            self.add("events")
         self.next_id += 1
         size = max(32, (8 + 24 + payload + 7) // 8 * 8)
         # `will_oom_on_alloc`: pages(size) > max heap pages. LOS rounds the (aligned) size up to pages.
@@ -76,6 +88,8 @@ class Prog:
         obvious = sem == "Los" and pages > self.heap // PAGE
         self.meta[i] = {"opts": list(opts), "cls": cls, "size": size, "obvious": obvious, "phase": phase,
                         "plan": self.plan, "heap": self.heap}
+        if self.events:
+            self.meta[i]["ev"] = i + 2
         return i
 
 
@@ -138,6 +152,79 @@ def gen_program(rng, plan, heap, workers, tag):
     return p
 
 
+# ---- space exhaustion: the page resource itself fails (attempted_allocation_and_failed = true) -------------------
+# A contiguous space owns about 2 x heap of address range (Space::estimate_reasonable_contiguous_extent; the free
+# list of a FreeListPageResource is sized for it: LOS_LIMIT_PAGES). A request that PASSES the GC trigger
+# (allow_overcommit, or the heap is not full) can still find no pages there: `get_new_pages` fails and
+# Space::not_acquiring(.., attempted_allocation_and_failed = true) runs. Two ways to get there:
+#   (E) overcommit: keep live objects of g pages with allow_overcommit=1 until the address range is used up;
+#   (F) fragmentation: drop 3 of every 4 of them and collect: the heap is 3/4 empty, but no run of 4g pages is free
+#       (a chunk boundary never coalesces), so a 4g-page request with allow_overcommit=0 passes the poll and fails in
+#       the page resource.
+# `prfail` (PrGetNewPagesFail events seen during the request) tells the oracle which requests met that case.
+EXHAUST_PLANS = [p for p in PLANS if p not in ("NoGC", "PageProtect")]   # PageProtect: 2 TB extents, cannot run out
+SP0 = [(0, 0, 0), (0, 0, 1), (1, 0, 0), (1, 0, 1)]
+
+
+def pick_opts(rng, ov=None):
+    """option combination, at_safepoint=0 twice as likely"""
+    c = rng.choice([c for c in COMBOS if ov is None or c[0] == ov] + [c for c in SP0 if ov is None or c[0] == ov])
+    return c
+
+
+def gen_exhaust(rng, plan, heap, workers, tag):
+    p = Prog(plan, heap, workers, tag, events=True)
+    p.add(f"alloc 0 {p.next_id} 0 64 8 0 Default 0"); p.next_id += 1
+    hp = heap // PAGE
+    g = hp // 16
+    limit = LOS_LIMIT_PAGES.get(heap >> 20, 2 * hp)
+    n = min(limit // g + 2 + rng.randrange(0, 6), 56)
+    # phase E: fill the large-object space beyond its address range (every request allow_overcommit=1)
+    first = [(1, 1, 1)] * 2                  # the first ones always succeed whatever the options
+    for k in range(n):
+        opts = first[k] if k < len(first) else pick_opts(rng, ov=1)
+        pay = g * PAGE - 40 - rng.choice([8, 64, 1000, 2000, 4000])      # exactly g pages
+        p.alloco(pay, "Los", 1 + k, opts, "exh-fill", "E", exhaust=True)
+    # + the four at_safepoint=0 / overcommit combinations once more, in the exhausted state for sure
+    for opts in rng.sample([(1, 0, 0), (1, 0, 1), (1, 1, 0), (1, 1, 1)], 4):
+        p.alloco(g * PAGE - 40 - 8, "Los", 59, opts, "exh-fill", "E", exhaust=True)
+    # phase F: keep one of every four, collect
+    for k in range(n):
+        if k % 4 != 0:
+            p.add(f"root 0 {1 + k} null")
+    p.add("root 0 59 null")
+    p.add("gc 0 1")
+    combos = COMBOS + SP0
+    rng.shuffle(combos)
+    for opts in combos:
+        pay = 4 * g * PAGE - rng.choice([0, 40, 1000, 2000])            # 4g or 4g+1 pages
+        p.alloco(pay, "Los", 60, opts, "exh-frag", "F", exhaust=True)
+        if rng.random() < 0.25:                                        # fits a hole (garbage right away)
+            p.alloco(g * PAGE + rng.randrange(0, g * PAGE), "Los", 61, pick_opts(rng), "exh-fit", "F", exhaust=True)
+            p.add("root 0 61 null")
+    return p
+
+
+def gen_exhaust_sem(rng, plan, heap, workers, tag, sem, objbytes, extent_pages):
+    """Same as phase E in another space (Immortal: MonotonePageResource; the Default space of a non-moving plan:
+    BlockPageResource): live objects with allow_overcommit=1 until the space has no address range left."""
+    p = Prog(plan, heap, workers, tag, events=True)
+    p.add(f"alloc 0 {p.next_id} 0 64 8 0 Default 0"); p.next_id += 1
+    # the objects hang off 56-field carriers (rooted) so that any number of them stays live
+    n = extent_pages * PAGE // objbytes + 8
+    carrier, nf = None, 56
+    for k in range(n):
+        if k % nf == 0:
+            carrier = p.next_id
+            p.add(f"alloc 0 {carrier} {nf} 8 8 0 Default {1 + k // nf}"); p.next_id += 1
+        opts = (1, 1, 1) if k < 2 else pick_opts(rng, ov=1)
+        i = p.alloco(objbytes - 40 - rng.choice([8, 64, 200]), sem, 62, opts, "exh-" + sem.lower(), "E", exhaust=True)
+        p.add(f"write 0 {carrier} {k % nf} {p.next_id - 1}")
+    for opts in rng.sample([(1, 0, 0), (1, 0, 1), (1, 1, 0), (1, 1, 1)], 4):
+        p.alloco(objbytes - 48, sem, 62, opts, "exh-" + sem.lower(), "E", exhaust=True)
+    return p
+
+
 def corpus_f6():
     p = Prog("SemiSpace", 8388608, 1, "corpus:F6")
     p.lines[3] = "cfg watchdog 8"
@@ -153,6 +240,29 @@ def corpus_overcommit_oob():
     # the third request needs a chunk beyond the address range of the space (2 x heap, one chunk of it holds the
     # free list): the page resource cannot deliver, which clause 5 does not promise (Lean: hypothesis pagesOk)
     p.meta[i]["space_exhausted"] = True
+    return p
+
+
+def corpus_exhaust_sp0(opts):
+    """The request under test is NOT at a safepoint and the large-object space cannot deliver:
+    overcommit=1: as above (the third 1.4 MB object needs a chunk the space does not have);
+    overcommit=0: the space is filled with 64-page objects (overcommit), 3 of every 4 are dropped and collected:
+    the heap is 3/4 empty, no 256-page run is free. Clause: null, block_for_gc never called, no retry."""
+    p = Prog("SemiSpace", 4194304, 1, f"corpus:space-exhausted-{opts[0]}{opts[1]}{opts[2]}")
+    p.oc_budget = 1 << 30
+    if opts[0] == 1:
+        for k in range(2):
+            p.alloco(1400000, "Los", 1 + k, (1, 1, 1), "big", "known", exhaust=True)
+    else:
+        for k in range(16):
+            p.alloco(64 * PAGE - 48, "Los", 1 + k, (1, 1, 1), "exh-fill", "known", exhaust=True)
+        for k in range(16):
+            if k % 4:
+                p.add(f"root 0 {1 + k} null")
+        p.add("gc 0 1")
+    i = p.alloco(1400000 if opts[0] == 1 else 256 * PAGE, "Los", 60, opts, "big", "known", exhaust=True)
+    p.meta[i]["space_exhausted"] = True
+    p.meta[i]["must_fail"] = True
     return p
 
 
@@ -179,11 +289,23 @@ RE_GCS = re.compile(r"\bgcs=(\d+)")
 def observe(p, outs, rc):
     """-> list of observations (dict) for the alloco lines that were reached."""
     obs = []
+    kind_fail = None
+    if p.events:
+        k = p.lines.index("kinds")
+        if k < len(outs):
+            mk = re.search(r"\b(\d+)=PrGetNewPagesFail\b", outs[k])
+            kind_fail = mk.group(1) if mk else None
     for i, m in sorted(p.meta.items()):
         if i >= len(outs):
             break
         line = outs[i]
         o = dict(m, line_no=i, raw=line, prog=p.tag)
+        if "ev" in m:
+            evl = outs[m["ev"]] if m["ev"] < len(outs) else ""
+            if kind_fail is None or not evl.startswith("ev"):
+                o["prfail"] = None          # the log could not be read: the oracle reports it
+            else:
+                o["prfail"] = sum(1 for e in evl.split()[1:] if e.split(":")[2] == kind_fail)
         if line == "timeout":
             o.update(res="timeout", oom=0, blocked=0, gcs=0)
             obs.append(o)
@@ -232,7 +354,17 @@ def oracle(o):
         bad.append(("gc:blocked-off-safepoint", f"block_for_gc called {blk}x with at_safepoint=false: {tag}"))
     if gcs < blk:
         bad.append(("gc:block-without-pause", f"block_for_gc returned {blk}x but only {gcs} pauses completed: {tag}"))
-    if ov == 1 and not o["obvious"] and (null or blk > 0) and not o.get("space_exhausted"):
+    prf = o.get("prfail", 0)
+    if prf is None:
+        bad.append(("gc:event-log-unreadable", f"no `events` answer after the request: {tag}"))
+        prf = 0
+    if sp == 0 and prf > 1:
+        bad.append(("gc:retry-off-safepoint", f"the page resource was asked {prf}x with at_safepoint=false (one attempt only): {tag}"))
+    if prf > 0 and not null and blk == 0:
+        bad.append(("gc:prfail-but-nonnull", f"the page resource failed {prf}x and nothing blocked, yet an address was returned: {tag}"))
+    if o.get("must_fail") and not null:
+        bad.append(("gc:exhausted-space-delivered", f"a request beyond the address range of the space returned an address: {tag}"))
+    if ov == 1 and not o["obvious"] and (null or blk > 0) and not (o.get("space_exhausted") or prf > 0):
         bad.append(("gc:overcommit-failed", f"allow_overcommit request {'returned null' if null else 'blocked'} (blocked={blk}): {tag}"))
     if o["obvious"]:
         if not null or blk > 0 or gcs > 0 and blk > 0:
@@ -319,6 +451,18 @@ def build_programs(tier, seed):
             heap = max(heap, 8 << 20)
         workers = 1 + (k // (len(PLANS) * len(HEAPS_MB))) % 3
         progs.append(gen_program(random.Random(rng.randrange(1 << 60)), plan, heap, workers, f"rnd{k}:{plan}:{heap >> 20}M:w{workers}"))
+    # space-exhaustion stream (drawn after the classic stream: the classic programs of a seed are unchanged)
+    ne = 14 if tier == "quick" else 56
+    for k in range(ne):
+        plan = EXHAUST_PLANS[k % len(EXHAUST_PLANS)]
+        heap = [4, 2, 8, 16][(k + 2 * (k // len(EXHAUST_PLANS))) % 4] << 20
+        workers = 1 + k % 3
+        progs.append(gen_exhaust(random.Random(rng.randrange(1 << 60)), plan, heap, workers, f"rnd-exh{k}:{plan}:{heap >> 20}M:w{workers}"))
+    sems = [("SemiSpace", "Immortal", 262144), ("MarkSweep", "Default", 61440), ("Immix", "Immortal", 131072),
+            ("GenImmix", "Immortal", 200000), ("MarkSweep", "Immortal", 262144), ("Immix", "Default", 16384)]
+    for k, (plan, sem, ob) in enumerate(sems[:3 if tier == "quick" else len(sems)]):
+        progs.append(gen_exhaust_sem(random.Random(rng.randrange(1 << 60)), plan, 2 << 20, 1 + k % 2, f"rnd-exh-{sem.lower()}{k}:{plan}:2M",
+                                     sem, ob, 2048))
     return progs
 
 
@@ -338,6 +482,7 @@ def main(argv=None):
         case = payload["case"]
         p = Prog(case["plan"], case["heap"], 1, "replay")
         p.lines, p.meta = case["lines"], {int(k): v for k, v in case["meta"].items()}
+        p.events = "kinds" in p.lines
         outs, rc, _ = run_prog(exe, p)
         print(f"REPLAY: hx_gc exit code {rc}")
         for l, o in zip(p.lines, outs + ["<no output>"] * len(p.lines)):
@@ -359,6 +504,7 @@ def main(argv=None):
         return E.finish(PID, a.tier, a.seed, t0, lean, {}, violations, level="proof of the model, partial w.r.t. the code")
     progs = build_programs(a.tier, a.seed)
     corpus = [corpus_f6(), corpus_f5(), corpus_overcommit_oob()]     # regressions of the three repaired defects
+    corpus += [corpus_exhaust_sp0(o) for o in SP0]                   # page resource fails off a safepoint
     allp = corpus + progs
     with ThreadPoolExecutor(5) as ex:
         results = list(ex.map(lambda p: run_prog(exe, p), allp))
@@ -413,8 +559,18 @@ def main(argv=None):
     if st_fail or (len(st_report) < 6 and progs):
         violations.append(Violation("selftest:mutation-not-caught", f"mutated observations not rejected: {st_fail} (ran {len(st_report)})",
                                     None, None, None, False, broken="C10 oracle/acceptor self-test"))
+    # coverage gate: the exhaustion stream must really reach `attempted_allocation_and_failed` off a safepoint
+    reach = {ov: sum(1 for o in observations if o["opts"][0] == ov and o["opts"][1] == 0 and (o.get("prfail") or 0) > 0
+                     and o["prog"].startswith("rnd")) for ov in (0, 1)}
+    if progs and (reach[0] == 0 or reach[1] == 0):
+        violations.append(Violation("coverage:space-exhaustion-not-reached",
+            f"no at_safepoint=0 request met a failing page resource (overcommit=0: {reach[0]}, overcommit=1: {reach[1]} observations)",
+            None, None, None, False, broken="C10 space-exhaustion programs (generator / PrGetNewPagesFail hook)"))
     dist = {}
     for o in observations:
+        if o.get("prfail"):
+            k = f"prfail:{''.join(map(str, o['opts']))}/{o['res']}/blk{min(o.get('blocked', 0), 3)}"
+            dist[k] = dist.get(k, 0) + 1
         for k in (f"plan:{o['plan']}", f"opts:{''.join(map(str, o['opts']))}", f"cls:{o['cls']}", f"phase:{o['phase']}",
                   f"res:{o['res']}", f"oom:{o.get('oom', 0)}", f"blocked:{min(o.get('blocked', 0), 4)}",
                   f"outcome:{''.join(map(str, o['opts']))}/{'obv' if o['obvious'] else 'fit?'}/{o['res']}/oom{o.get('oom', 0)}/blk{min(o.get('blocked', 0), 3)}"):
@@ -432,12 +588,13 @@ def main(argv=None):
         "traces_validated_against_impl": len(ans) - rejected,
         "observations_nontrivial": sum(1 for o in observations if nontrivial(o)),
         "oracle_failures": n_bad, "model_rejections": rejected,
+        "page_resource_failed_off_safepoint": {"overcommit=0": reach[0], "overcommit=1": reach[1]},
         "observations_impossible_before_the_repairs": sorted(set(rejected_fixed)),
         "repaired_defect_regression_programs": known_obs,
         "mutation_selftest": st_report,
         "crashed_programs": crashed,
         "distribution": dict(sorted(dist.items())),
-        "rule": "per program: plan x heap(2..16 MB) x workers; phase A (empty heap): 8 option combinations x {small,medium} + obviously-too-large {2.5x heap, ~4 GB}; phase B: 16+ live chunks of heap/12 with default options until the heap runs out; phase C (full heap): option combinations x {small, medium, heap/3, >heap, ~4GB}; phase D: half of the chunks dropped, GC frees memory. Observation per alloc_with_options: result, out_of_memory calls, block_for_gc calls, pauses. distinct = distinct (options, obvious, result, oom, blocked) tuples other than plain success. Corpus (runs first): the programs of the three repaired defects (F6 obviously-too-large with safepoint=1,oomcall=0; F5 unsatisfiable with overcommit=0,safepoint=1,oomcall=0; overcommit beyond the address range of the large-object space). Sizes < 4 GiB (harness object header).",
+        "rule": "per program: plan x heap(2..16 MB) x workers; phase A (empty heap): 8 option combinations x {small,medium} + obviously-too-large {2.5x heap, ~4 GB}; phase B: 16+ live chunks of heap/12 with default options until the heap runs out; phase C (full heap): option combinations x {small, medium, heap/3, >heap, ~4GB}; phase D: half of the chunks dropped, GC frees memory. Observation per alloc_with_options: result, out_of_memory calls, block_for_gc calls, pauses. distinct = distinct (options, obvious, result, oom, blocked) tuples other than plain success. Corpus (runs first): the programs of the three repaired defects (F6 obviously-too-large with safepoint=1,oomcall=0; F5 unsatisfiable with overcommit=0,safepoint=1,oomcall=0; overcommit beyond the address range of the large-object space). Sizes < 4 GiB (harness object header). Space-exhaustion stream (7 plans x heaps 2..16 MB, event log on, `prfail` = PrGetNewPagesFail events during the request): phase E keeps g-page large objects live with allow_overcommit=1 (at_safepoint / allow_oom_call random, at_safepoint=0 twice as likely) until the large-object space has no address range left, then every overcommit combination once more; phase F drops 3 of every 4, collects, and issues 4g-page requests with all 8 combinations (heap 3/4 empty, no 4g-page run free: the poll passes, the page resource fails) plus requests that fit a hole; the same phase E in the Immortal space (MonotonePageResource) and the MarkSweep default space (BlockPageResource). A null result of an allow_overcommit request is tolerated only where prfail > 0 (or in the corpus program that says so). Corpus: + the page resource failing for each of the four at_safepoint=0 combinations.",
         "hx_gc_build_s": build_s, "lean_s": lean.get("lean_s"),
     }
     return E.finish(PID, a.tier, a.seed, t0, lean, corr, violations,
